@@ -14,6 +14,12 @@ pub mod c02;
 #[cfg(feature = "sodium")]
 pub mod c03;
 pub mod c04;
+#[cfg(feature = "nightly")]
+pub mod c14;
+#[cfg(feature = "nightly")]
+pub mod osview;
+#[cfg(feature = "nightly")]
+pub mod prot;
 #[cfg(feature = "sodium")]
 pub mod c05;
 #[cfg(feature = "sodium")]
@@ -43,6 +49,8 @@ pub fn dispatch(name: &str, cx: &mut Ctx) -> bool {
         #[cfg(feature = "sodium")]
         "c03" => c03::run(cx),
         "c04" => c04::run(cx),
+        #[cfg(feature = "nightly")]
+        "c14" => c14::run(cx),
         #[cfg(feature = "sodium")]
         "c05" => c05::run(cx),
         #[cfg(feature = "sodium")]
